@@ -4,18 +4,19 @@ import vlib
 from props.common import run_vectors
 
 
-def cfg(nsig, begin_first, invs, emit=False, props=True):
+def cfg(nsig, begin_first, invs, emit=False, props=True, recheck=True):
     return """SPECIFICATION Spec
 CONSTANTS
   NSignals = %d
   BeginBeforeSend = %s
+  RecheckAfterBusy = %s
 VIEW View
 INVARIANTS %s %s
 %s
-""" % (nsig, "TRUE" if begin_first else "FALSE", " ".join(invs), "Emit" if emit else "", "PROPERTIES RefusedChangesNothing" if props else "")
+""" % (nsig, "TRUE" if begin_first else "FALSE", "TRUE" if recheck else "FALSE", " ".join(invs), "Emit" if emit else "", "PROPERTIES RefusedChangesNothing" if props else "")
 
 
-INVS = ["AtMostOne", "SuppressBalanced", "NeverWedged", "AnsweredAll"]
+INVS = ["AtMostOne", "SuppressBalanced", "NeverWedged", "AnsweredAll", "ProgressSettles"]
 
 
 def run(tier, v, wd, replay=None):
@@ -37,6 +38,18 @@ def run(tier, v, wd, replay=None):
     dump = os.path.join(wd.path, "ce_reload.json")
     r = vlib.tlc(wd, "Reload", "Reload_gen_reordered.cfg", timeout=1500, dump_trace=dump)
     v.add_tlc(r)
+    # regression schedule 2: without the re-check after a busy report the progress file can be left at Busy (non-vacuity of
+    # ProgressSettles, and the schedule of the defect repaired under C20)
+    open(os.path.join(sd, "Reload_gen_norecheck.cfg"), "w").write(cfg(2, True, ["ProgressSettles"], props=False, recheck=False))
+    dump2 = os.path.join(wd.path, "ce_reload_busy.json")
+    r = vlib.tlc(wd, "Reload", "Reload_gen_norecheck.cfg", timeout=1500, dump_trace=dump2)
+    v.add_tlc(r)
+    if r.violated != "ProgressSettles":
+        raise vlib.Infra("Reload.tla without the re-check no longer violates ProgressSettles: vacuous model")
+    if os.path.exists(dump2):
+        last = json.load(open(dump2))["counterexample"]["state"][-1][1]
+        behaviours.append({"schedule": last["hist"], "pending": last["pending"], "active": last["active"], "reloading": last["reloading"],
+                           "suppress": last["suppress"], "progress": "done", "origin": "counterexample_ProgressSettles"})
     # behaviours of the model to quiescence (BFS: one per distinct quiescent view state; plus simulation)
     open(os.path.join(sd, "Reload_gen_emit.cfg"), "w").write(cfg(3, True, INVS, emit=True, props=False))
     r = vlib.tlc(wd, "Reload", "Reload_gen_emit.cfg", timeout=1500)
